@@ -188,6 +188,8 @@ func (en *Engine) symTypeAssert(st *State, f *Frame, x *ssa.TypeAssert, iv Iface
 	st.assume(tag)
 	refined := IfaceV{Dyn: x.AssertedType, V: val, Sym: iv.Sym}
 	f.env[x.X] = refined
+	st.ifaceRefined[iv.Sym.id] = refined
+	other.ifaceDenied[iv.Sym.id] = true
 	st.trace = append(st.trace, pos+": dynamic type is "+x.AssertedType.String())
 	if x.CommaOk {
 		f.env[x] = TupleV{val, True()}
@@ -434,9 +436,17 @@ func (en *Engine) intrinsicAPI(st *State, f *Frame, x *ssa.Call, fn *ssa.Functio
 			st.assume(Lt(res, Const(pow2(256))))
 		}
 		var es []Cell
+		var sum []*Term
 		for i := 0; i < 32; i++ {
-			es = append(es, Mod(Div(res, pow2(8*i)), pow2(8)))
+			var facts []*Term
+			b := freshScalar(types.Typ[types.Uint8], "x25519.out", &facts).(*Term)
+			for _, fc := range facts {
+				st.assume(fc)
+			}
+			es = append(es, b)
+			sum = append(sum, MulC(b, pow2(8*i)))
 		}
+		st.assume(Eq(Add(append(sum, ConstI(0))...), res))
 		en.noteWrite(st, dst, pos)
 		en.store(st, dst, AggV{C: &ArrCell{es}})
 		f.env[x] = nil
